@@ -791,7 +791,9 @@ func (s *Session) MapExecuteBatchCAS(batch *Batch, dest map[string]interface{}) 
 		return false, nil, err
 	}
 	iter.MapScan(dest)
-	applied = dest["[applied]"].(bool)
+	// a row without an [applied] column, or one that could not be read, leaves
+	// applied false instead of panicking in the caller
+	applied, _ = dest["[applied]"].(bool)
 	delete(dest, "[applied]")
 
 	// we usually close here, but instead of closing, just returin an error
@@ -1380,7 +1382,9 @@ func (q *Query) MapScanCAS(dest map[string]interface{}) (applied bool, err error
 		return false, err
 	}
 	iter.MapScan(dest)
-	applied = dest["[applied]"].(bool)
+	// a row without an [applied] column, or one that could not be read, leaves
+	// applied false instead of panicking in the caller
+	applied, _ = dest["[applied]"].(bool)
 	delete(dest, "[applied]")
 
 	return applied, iter.Close()
